@@ -4,6 +4,7 @@ import NeumannModel.Parse.Select
 import NeumannModel.Parse.Nest
 import NeumannModel.Parse.Full
 import NeumannModel.Parse.Lex
+import NeumannModel.Parse.Text
 /-
   Line-protocol driver for the expression-parser model (C15).
 
@@ -60,6 +61,11 @@ import NeumannModel.Parse.Lex
                                     as `+`-joined code points.  Answer: tokens `K@lo-hi`, K = `eof` | `name:<TokenKind
                                     variant>` | `ident` | `int:<value>` | `float` | `str:<cp>.<cp>…` |
                                     `err:unterminated|integer|float|char` | `fuel`
+            ptext expr|stmt <ch>*   model of neumann_parser::parse_expr(text) / of the WHERE clause of
+                                    parse("SELECT * FROM t WHERE " + text) (Text.lean = Lex ∘ tokOf ∘ Full).
+                                    Answers as for `full`, with the byte offset of the token instead of an
+                                    index in `l<k>` `i<k>` `k<k>` `@i<k>` `@k<k>` `@g<k>` and in the errors
+                                    (`err eof <exp> <bytepos>` carries the position too)
 -/
 open Neumann Neumann.Proto Neumann.Parse
 
@@ -510,6 +516,15 @@ def showKind : Lex.Kind → String
 
 def showLexTok (t : Lex.Token) : String := s!"{showKind t.kind}@{t.lo}-{t.hi}"
 
+def showTextRes : Text.TRes → String
+  | .ok e => "ok " ++ showFE e
+  | .outside => "outside"
+  | .error (.tooDeep p) => s!"err too_deep {p}"
+  | .error (.eof x p) => s!"err eof {showFExpect x} {p}"
+  | .error (.unexpected x p) => s!"err unexpected {showFExpect x} {p}"
+  | .error (.invalid w p) => s!"err invalid {showInvalid w} {p}"
+  | .error .fuel => "err fuel"
+
 def parseStep (_ : Unit) (line : String) : Unit × String :=
   let bad := ((), "bad-op")
   match words line with
@@ -521,6 +536,8 @@ def parseStep (_ : Unit) (line : String) : Unit × String :=
       | some x, some e => ((), toString (Full.framesWith x e)) | _, _ => bad
   | "fsexp" :: ws => match readFTree ws with
       | some e => ((), "ok " ++ showFE e) | none => bad
+  | "ptext" :: mode :: ws => match readMode mode, ws.mapM readCh with
+      | some md, some cs => ((), showTextRes (Text.parseText md cs)) | _, _ => bad
   | "lex" :: ws => match ws.mapM readCh with
       | some cs => ((), " ".intercalate ((Lex.lex cs).map showLexTok)) | none => bad
   | "nest" :: ws => match ws.mapM readNTok with
